@@ -51,7 +51,9 @@ def c08_ops(tier):
             if tier == 'thorough':
                 out.append(ops(2, 2, [0, 1], ENC=enc, OP=op, _time=2400))                      # 16 bits
                 out.append(ops(2, 1, [0, 2], ENC=enc, OP=op, AFREE=BIN6, _time=2400))          # 11 bits
-                out.append(ops(2, 2, [0, 2], ENC=enc, OP=op, SHARE=1, _time=2400))             # 14 bits
+                if not (enc == 1 and op == 3):                                                 # top-down intersection: > 40 min
+                    out.append(ops(2, 2, [0, 2], ENC=enc, OP=op, SHARE=1, _time=2400))         # 14 bits
+    out.sort(key=lambda d: 0 if '_time' in d else 1)      # the long queries first
     return out
 
 def c08_seq(tier):
